@@ -1,4 +1,497 @@
-//! c04 check (under construction)
+//! C04 - path combination is sound, complete, loop-free, duplicate-free and ordered.
+//!
+//! Bounded exhaustive exploration: every topology of R-topo with n <= N ASes (both interface
+//! numberings) plus the curated larger shapes; every ordered (src, dst); segments from R-seg
+//! converted field by field into `UnsignedPathSegment`; input = the lookup-plan sets; input
+//! variants = every order / duplication / later-timestamp copy (see `variants`). The REAL
+//! `sciparse::path::combinator::combine` is compared with R-combine and every returned path is
+//! checked against the topology.
+use std::collections::{BTreeMap, BTreeSet};
+
+use rayon::prelude::*;
+use sciparse::{path::combinator::combine, segment::UnsignedPathSegment};
+use vpc::{
+    Value, json,
+    refcombine::{self, HopSeq, RPath},
+    refseg::{self, RSegment, RSegs},
+    reftopo::{AsIdx, Topo},
+    reftopo_enum,
+    refwire::RStdPath,
+};
+
+use crate::util::{self, BASE_TS, Obs};
+
+/// Later-timestamp copies are re-beaconed this many seconds later.
+const LATER: u32 = 1000;
+
+/// One input segment: index into `RSegs::core` / `RSegs::up_down` and a timestamp shift.
+#[derive(Clone, Copy, Debug, PartialEq, Eq, PartialOrd, Ord)]
+pub struct SegRef {
+    pub idx: usize,
+    pub dts: u32,
+}
+
+#[derive(Clone, Debug)]
+pub struct Input {
+    pub tag: String,
+    pub cores: Vec<SegRef>,
+    pub non_cores: Vec<SegRef>,
+}
+
+/// Per-topology cache of segments in both forms, for dts in {0, LATER}.
+pub struct SegCache<'a> {
+    topo: &'a Topo,
+    segs: RSegs,
+    core: BTreeMap<(usize, u32), (RSegment, UnsignedPathSegment)>,
+    updown: BTreeMap<(usize, u32), (RSegment, UnsignedPathSegment)>,
+}
+impl<'a> SegCache<'a> {
+    pub fn new(topo: &'a Topo) -> Self {
+        SegCache { topo, segs: refseg::beacon(topo, BASE_TS), core: BTreeMap::new(), updown: BTreeMap::new() }
+    }
+    fn get(&mut self, core: bool, r: SegRef) -> &(RSegment, UnsignedPathSegment) {
+        let (map, list) = if core { (&mut self.core, &self.segs.core) } else { (&mut self.updown, &self.segs.up_down) };
+        let topo = self.topo;
+        map.entry((r.idx, r.dts)).or_insert_with(|| {
+            let base = &list[r.idx];
+            let s = if r.dts == 0 { base.clone() } else { refseg::restamp(topo, base, base.timestamp + r.dts) };
+            let c = util::to_seg(topo, &s);
+            (s, c)
+        })
+    }
+}
+
+/// What one call of the real `combine` returned, reduced to comparable data.
+#[derive(Clone, Debug, PartialEq, Eq, PartialOrd, Ord)]
+struct RealPath {
+    hops: HopSeq,
+    mtu: u16,
+    expiration: u64,
+}
+
+struct CaseOutcome {
+    violations: Vec<(String, String)>,
+    real: Vec<Obs>,
+    real_set: BTreeSet<RealPath>,
+    reference: BTreeMap<HopSeq, RPath>,
+}
+
+fn reference(cache: &mut SegCache, src: AsIdx, dst: AsIdx, inp: &Input) -> BTreeMap<HopSeq, RPath> {
+    let cores: Vec<RSegment> = inp.cores.iter().map(|r| cache.get(true, *r).0.clone()).collect();
+    let ncs: Vec<RSegment> = inp.non_cores.iter().map(|r| cache.get(false, *r).0.clone()).collect();
+    let ups: Vec<&RSegment> = ncs.iter().filter(|s| s.last_as() == src).collect();
+    let downs: Vec<&RSegment> = ncs.iter().filter(|s| s.last_as() == dst).collect();
+    let cores: Vec<&RSegment> = cores.iter().collect();
+    refcombine::combine(cache.topo, src, dst, &ups, &cores, &downs)
+}
+
+/// Run the real code on one input and apply every C04 oracle. `reference` = R-combine's result for
+/// this input's segment multiset.
+fn run_case(cache: &mut SegCache, src: AsIdx, dst: AsIdx, inp: &Input, reference: &BTreeMap<HopSeq, RPath>) -> CaseOutcome {
+    let topo = cache.topo;
+    let cores: Vec<UnsignedPathSegment> = inp.cores.iter().map(|r| cache.get(true, *r).1.clone()).collect();
+    let ncs: Vec<UnsignedPathSegment> = inp.non_cores.iter().map(|r| cache.get(false, *r).1.clone()).collect();
+    let (s_ia, d_ia) = (util::ia(topo, src), util::ia(topo, dst));
+    let mut out = CaseOutcome { violations: vec![], real: vec![], real_set: BTreeSet::new(), reference: reference.clone() };
+    let paths = match vpc::catch(|| combine(s_ia, d_ia, cores, ncs)) {
+        Ok(p) => p,
+        Err(m) => {
+            out.violations.push((format!("panic@{}", vpc::last_panic_location()), format!("combine panicked on a consistent segment set: {m}")));
+            return out;
+        }
+    };
+    let obs: Vec<Obs> = paths.iter().map(util::observe).collect();
+    let mut viols: Vec<(String, String)> = vec![];
+    let mut real_set: BTreeSet<RealPath> = BTreeSet::new();
+    let mut v = |class: &str, what: String| viols.push((class.to_string(), what));
+    let mut seqs: Vec<Option<HopSeq>> = vec![];
+    let mut fps = BTreeSet::new();
+    for (k, o) in obs.iter().enumerate() {
+        let mut seq = None;
+        if o.src != s_ia.to_u64() || o.dst != d_ia.to_u64() {
+            v("src-dst-differs-from-request", format!("path {k}: src/dst {} -> {} but requested {} -> {}", util::ia_str(o.src), util::ia_str(o.dst), s_ia, d_ia));
+        }
+        if !fps.insert(o.fingerprint.clone()) {
+            v("two-paths-same-fingerprint", format!("path {k} has the fingerprint of an earlier path"));
+        }
+        if !o.has_meta || !o.standard {
+            v("path-without-metadata", format!("path {k}: metadata/interface list or standard dp path missing"));
+            seqs.push(None);
+            continue;
+        }
+        match RStdPath::parse(&o.bytes) {
+            Err(e) => v("dp-path-unparsable", format!("path {k}: R-wire rejects the encoded path: {e}")),
+            Ok(p) => match util::decode_on_topo(topo, src, &p) {
+                Err(e) => v("hop-fields-leave-topology", format!("path {k}: {e}")),
+                Ok(d) => {
+                    let want: Vec<(u64, u16)> = refcombine::interfaces(&d.hops).iter().map(|&(a, i)| (topo.ases[a].ia(), i)).collect();
+                    if want != o.ifaces {
+                        v("interface-list-differs-from-hop-fields", format!("path {k}: hop fields traverse {want:?}, metadata lists {:?}", o.ifaces));
+                    }
+                    if d.hops.last().map(|h| h.0) != Some(dst) {
+                        v("hop-fields-end-elsewhere", format!("path {k}: hop fields end at AS {:?}, destination is {dst}", d.hops.last()));
+                    }
+                    let mut ases: Vec<AsIdx> = d.hops.iter().map(|h| h.0).collect();
+                    ases.sort();
+                    let n = ases.len();
+                    ases.dedup();
+                    if ases.len() != n {
+                        v("as-visited-twice", format!("path {k}: {}", util::hopseq_str(topo, &d.hops)));
+                    }
+                    match refcombine::topo_mtu(topo, &d.hops) {
+                        Ok(m) if m == o.mtu => {}
+                        Ok(m) => v(if o.mtu > m { "mtu-above-minimum" } else { "mtu-below-minimum" }, format!("path {k} ({}): metadata mtu {} but min over traversed ASes and links is {m}", util::hopseq_str(topo, &d.hops), o.mtu)),
+                        Err(e) => v("hop-fields-leave-topology", format!("path {k}: {e}")),
+                    }
+                    if o.meta_expiration != d.min_expiry as u64 || o.expiration != Some(d.min_expiry) {
+                        v("expiry-not-earliest-hop-expiry", format!("path {k}: metadata {} / expiration() {:?}, earliest hop expiry {}", o.meta_expiration, o.expiration, d.min_expiry));
+                    }
+                    real_set.insert(RealPath { hops: d.hops.clone(), mtu: o.mtu, expiration: o.meta_expiration });
+                    seq = Some(d.hops);
+                }
+            },
+        }
+        seqs.push(seq);
+    }
+    // each once
+    let mut seen: BTreeSet<&HopSeq> = BTreeSet::new();
+    let mut twice: BTreeSet<&HopSeq> = BTreeSet::new();
+    for (k, s) in seqs.iter().enumerate() {
+        let Some(s) = s else { continue };
+        if !seen.insert(s) {
+            twice.insert(s);
+            // narrow cause: the earlier instance differs only in the construction-direction flags
+            // (the same links taken from a segment beaconed the other way round)?
+            let first = seqs.iter().position(|x| x.as_ref() == Some(s)).unwrap();
+            let flags = |o: &Obs| RStdPath::parse(&o.bytes).map(|p| p.infos.iter().map(|i| i.cons_dir()).collect::<Vec<_>>()).unwrap_or_default();
+            // hop-field id pairs at positions where an interface is NOT crossed (first hop of a
+            // shortcut / on-path segment) are the only difference?
+            let raw = |o: &Obs| RStdPath::parse(&o.bytes).map(|p| p.hops.iter().map(|h| (h.cons_ingress, h.cons_egress)).collect::<Vec<_>>()).unwrap_or_default();
+            let cause = if obs[first].fingerprint == obs[k].fingerprint {
+                "equal-fingerprints"
+            } else if flags(&obs[first]) != flags(&obs[k]) {
+                "segment-beaconed-in-opposite-direction"
+            } else if raw(&obs[first]) != raw(&obs[k]) {
+                "unused-interface-of-crossover-hop-differs"
+            } else {
+                "other"
+            };
+            v(&format!("same-interface-sequence-twice:{cause}"), format!("paths {first} and {k} both are {}", util::hopseq_str(topo, s)));
+        }
+    }
+    // sound + complete
+    for s in &seen {
+        if !reference.contains_key(*s) {
+            v("path-not-obtainable-by-combination-rules", format!("real returned {} which R-combine does not derive", util::hopseq_str(topo, s)));
+        }
+    }
+    for (s, r) in reference {
+        if !seen.contains(s) {
+            let kind = r.kinds.iter().next().unwrap().name();
+            v(&format!("missing-path:{kind}"), format!("R-combine derives {} ({:?}); real result lacks it", util::hopseq_str(topo, s), r.kinds));
+        }
+    }
+    // cheapest first
+    let counts: Vec<usize> = seqs.iter().flatten().map(|s| s.len()).collect();
+    if counts.windows(2).any(|w| w[0] > w[1]) {
+        v("not-ordered-by-hop-count", format!("hop counts along the result: {counts:?}"));
+    }
+    // keep-latest-expiry among derivations of the same sequence
+    for (k, s) in seqs.iter().enumerate() {
+        if let Some(s) = s {
+            if twice.contains(s) {
+                continue; // reported above; one of the instances is the stale one
+            }
+            if let Some(r) = reference.get(s) {
+                let got = obs[k].meta_expiration;
+                if got != r.latest_expiry() as u64 && r.expiries.iter().any(|e| *e as u64 == got) {
+                    v("duplicate-kept-is-not-latest-expiry", format!("{}: returned instance expires {got}, derivations expire {:?}", util::hopseq_str(topo, s), r.expiries));
+                } else if got != r.latest_expiry() as u64 {
+                    v("expiry-matches-no-derivation", format!("{}: returned instance expires {got}, derivations expire {:?}", util::hopseq_str(topo, s), r.expiries));
+                }
+            }
+        }
+    }
+    out.real = obs;
+    out.violations = viols;
+    out.real_set = real_set;
+    out
+}
+
+/// Lookup-plan input and its variants.
+fn variants(cache: &SegCache, src: AsIdx, dst: AsIdx, full: bool) -> Vec<Input> {
+    let ps = cache.segs.plan_sets(cache.topo, src, dst);
+    let r0 = |v: &[usize]| v.iter().map(|&idx| SegRef { idx, dts: 0 }).collect::<Vec<_>>();
+    let later = |v: &[SegRef]| v.iter().map(|r| SegRef { idx: r.idx, dts: LATER }).collect::<Vec<_>>();
+    let c = r0(&ps.core);
+    let crev = r0(&ps.core_rev);
+    let n: Vec<SegRef> = r0(&ps.up).into_iter().chain(r0(&ps.down)).collect();
+    let cat = |a: &[SegRef], b: &[SegRef]| a.iter().chain(b.iter()).copied().collect::<Vec<_>>();
+    let mut out = vec![Input { tag: "base".into(), cores: c.clone(), non_cores: n.clone() }];
+    if !crev.is_empty() {
+        out.push(Input { tag: "core-segments-other-direction".into(), cores: crev.clone(), non_cores: n.clone() });
+        out.push(Input { tag: "core-segments-both-directions".into(), cores: cat(&c, &crev), non_cores: n.clone() });
+    }
+    out.push(Input { tag: "later-copy-of-all-after".into(), cores: cat(&c, &later(&c)), non_cores: cat(&n, &later(&n)) });
+    out.push(Input { tag: "later-copy-of-all-before".into(), cores: cat(&later(&c), &c), non_cores: cat(&later(&n), &n) });
+    if !full {
+        return out;
+    }
+    for (k, o) in util::orders(n.len()).into_iter().enumerate().skip(1) {
+        out.push(Input { tag: format!("non_cores-order-{k}"), cores: c.clone(), non_cores: o.iter().map(|&i| n[i]).collect() });
+    }
+    for (k, o) in util::orders(c.len()).into_iter().enumerate().skip(1) {
+        out.push(Input { tag: format!("cores-order-{k}"), cores: o.iter().map(|&i| c[i]).collect(), non_cores: n.clone() });
+    }
+    if c.len() > 1 && n.len() > 1 {
+        out.push(Input { tag: "both-reversed".into(), cores: c.iter().rev().copied().collect(), non_cores: n.iter().rev().copied().collect() });
+    }
+    for i in 0..n.len() {
+        out.push(Input { tag: format!("non_cores-dup-{i}"), cores: c.clone(), non_cores: cat(&n, &[n[i]]) });
+        let l = SegRef { idx: n[i].idx, dts: LATER };
+        out.push(Input { tag: format!("non_cores-later-copy-{i}-after"), cores: c.clone(), non_cores: cat(&n, &[l]) });
+        out.push(Input { tag: format!("non_cores-later-copy-{i}-before"), cores: c.clone(), non_cores: cat(&[l], &n) });
+    }
+    for i in 0..c.len() {
+        out.push(Input { tag: format!("cores-dup-{i}"), cores: cat(&c, &[c[i]]), non_cores: n.clone() });
+        let l = SegRef { idx: c[i].idx, dts: LATER };
+        out.push(Input { tag: format!("cores-later-copy-{i}-after"), cores: cat(&c, &[l]), non_cores: n.clone() });
+        out.push(Input { tag: format!("cores-later-copy-{i}-before"), cores: cat(&[l], &c), non_cores: n.clone() });
+    }
+    out
+}
+
+fn refs_json(v: &[SegRef]) -> Value {
+    json!(v.iter().map(|r| json!([r.idx, r.dts])).collect::<Vec<_>>())
+}
+fn refs_from_json(v: &Value) -> Vec<SegRef> {
+    v.as_array().unwrap().iter().map(|x| SegRef { idx: x[0].as_u64().unwrap() as usize, dts: x[1].as_u64().unwrap() as u32 }).collect()
+}
+
+fn witness(topo: &Topo, src: AsIdx, dst: AsIdx, inp: &Input, cache: &mut SegCache) -> Value {
+    let show = |cache: &mut SegCache, core: bool, v: &[SegRef]| -> Vec<String> { v.iter().map(|r| format!("{}", cache.get(core, *r).1)).collect() };
+    json!({
+        "topology": util::topo_json(topo), "src": src, "dst": dst, "variant": inp.tag,
+        "cores": refs_json(&inp.cores), "non_cores": refs_json(&inp.non_cores),
+        "segments_written_out": {"cores": show(cache, true, &inp.cores), "non_cores": show(cache, false, &inp.non_cores)},
+        "note": "segments = vpc::refseg::beacon(topology, 1_700_000_000); [index, timestamp shift] into .core / .up_down",
+    })
+}
+
+#[derive(Default)]
+struct Tally {
+    calls: u64,
+    ref_calls: u64,
+    pairs: u64,
+    pairs_with_paths: u64,
+    full_pairs: u64,
+    outcomes: BTreeMap<String, u64>,
+    nontrivial: Vec<u64>,
+    max_paths: usize,
+    max_segs: usize,
+}
+impl Tally {
+    fn merge(&mut self, o: Tally) {
+        self.calls += o.calls;
+        self.ref_calls += o.ref_calls;
+        self.pairs += o.pairs;
+        self.pairs_with_paths += o.pairs_with_paths;
+        self.full_pairs += o.full_pairs;
+        for (k, v) in o.outcomes {
+            *self.outcomes.entry(k).or_default() += v;
+        }
+        self.nontrivial.extend(o.nontrivial);
+        self.max_paths = self.max_paths.max(o.max_paths);
+        self.max_segs = self.max_segs.max(o.max_segs);
+    }
+}
+
+/// Explore one topology. `full_every`: every pair whose running index is divisible by it gets the
+/// complete variant set (1 = all pairs).
+fn explore(run: &vpc::Run, topo: &Topo, topo_idx: usize, full_every: usize) -> Tally {
+    let mut t = Tally::default();
+    let mut cache = SegCache::new(topo);
+    let n = topo.ases.len();
+    let mut pair_idx = 0usize;
+    for src in 0..n {
+        for dst in 0..n {
+            if src == dst {
+                continue;
+            }
+            pair_idx += 1;
+            t.pairs += 1;
+            let full = (topo_idx + pair_idx) % full_every == 0;
+            if full {
+                t.full_pairs += 1;
+            }
+            let inputs = variants(&cache, src, dst, full);
+            let mut ref_cache: BTreeMap<(Vec<SegRef>, Vec<SegRef>), BTreeMap<HopSeq, RPath>> = BTreeMap::new();
+            let mut base_set: Option<BTreeSet<RealPath>> = None;
+            for inp in &inputs {
+                // R-combine depends on the multiset of distinct segments only
+                let mut key = (inp.cores.clone(), inp.non_cores.clone());
+                key.0.sort();
+                key.0.dedup();
+                key.1.sort();
+                key.1.dedup();
+                if !ref_cache.contains_key(&key) {
+                    t.ref_calls += 1;
+                    let r = reference(&mut cache, src, dst, inp);
+                    ref_cache.insert(key.clone(), r);
+                }
+                let reference = &ref_cache[&key];
+                let oc = run_case(&mut cache, src, dst, inp, reference);
+                t.calls += 1;
+                t.max_segs = t.max_segs.max(inp.cores.len() + inp.non_cores.len());
+                t.max_paths = t.max_paths.max(oc.real.len());
+                let mut viol = oc.violations.clone();
+                if inp.tag == "base" {
+                    if !oc.reference.is_empty() {
+                        t.pairs_with_paths += 1;
+                        t.nontrivial.push(vpc::fnv64(format!("{}|{src}|{dst}", topo.name).as_bytes()));
+                    } else {
+                        *t.outcomes.entry("pair-without-path".into()).or_default() += 1;
+                    }
+                    for r in oc.reference.values() {
+                        for k in &r.kinds {
+                            *t.outcomes.entry(format!("path:{}", k.name())).or_default() += 1;
+                        }
+                        if r.kinds.len() > 1 {
+                            *t.outcomes.entry("path-derivable-by-several-rules".into()).or_default() += 1;
+                        }
+                    }
+                    base_set = Some(oc.real_set.clone());
+                } else if let Some(b) = &base_set {
+                    // order / duplication independence: permutations and exact duplicates must not change
+                    // anything; later copies change expiries only
+                    let same_multiset = inp.cores.iter().chain(inp.non_cores.iter()).all(|r| r.dts == 0) && !inp.tag.starts_with("core-segments");
+                    if same_multiset && *b != oc.real_set && viol.is_empty() {
+                        viol.push(("result-depends-on-input-order-or-duplication".into(), format!("variant {} returns a different path set than the base order", inp.tag)));
+                    }
+                    let strip = |s: &BTreeSet<RealPath>| s.iter().map(|p| (p.hops.clone(), p.mtu)).collect::<BTreeSet<_>>();
+                    if !same_multiset && strip(b) != strip(&oc.real_set) && viol.is_empty() {
+                        viol.push(("result-depends-on-input-order-or-duplication".into(), format!("variant {} returns different interface sequences / MTUs than the base input", inp.tag)));
+                    }
+                }
+                *t.outcomes.entry(format!("variant:{}", inp.tag.split(|c: char| c.is_ascii_digit()).next().unwrap_or("").trim_end_matches('-'))).or_default() += 1;
+                for (class, what) in viol {
+                    let w = witness(topo, src, dst, inp, &mut cache);
+                    run.violation(&class, &format!("{} {}->{} [{}]: {}", topo.name, src, dst, inp.tag, what), w);
+                }
+                run.sample(4, || {
+                    json!({"topology": topo.name, "src": util::ia_str(topo.ases[src].ia()), "dst": util::ia_str(topo.ases[dst].ia()), "variant": inp.tag,
+                           "real_paths": oc.real.iter().map(|o| o.to_json()).collect::<Vec<_>>(),
+                           "reference_paths": oc.reference.values().map(|r| json!({"hops": util::hopseq_str(topo, &r.hops), "kinds": r.kinds.iter().map(|k| k.name()).collect::<Vec<_>>(), "mtu": r.mtu, "expiries": r.expiries})).collect::<Vec<_>>()})
+                });
+            }
+        }
+    }
+    t
+}
+
+fn replay(args: &vpc::Args, file: &std::path::Path) -> ! {
+    let rp = vpc::read_replay(file);
+    let w = &rp["witness"];
+    let topo = util::topo_from_json(&w["topology"]);
+    let (src, dst) = (w["src"].as_u64().unwrap() as usize, w["dst"].as_u64().unwrap() as usize);
+    let inp = Input { tag: w["variant"].as_str().unwrap_or("replay").to_string(), cores: refs_from_json(&w["cores"]), non_cores: refs_from_json(&w["non_cores"]) };
+    let mut cache = SegCache::new(&topo);
+    let reference = reference(&mut cache, src, dst, &inp);
+    let oc = run_case(&mut cache, src, dst, &inp, &reference);
+    println!("replay {} : topology {} {} -> {} variant {}", file.display(), topo.name, src, dst, inp.tag);
+    for r in &inp.cores {
+        println!("  core     {}", cache.get(true, *r).1);
+    }
+    for r in &inp.non_cores {
+        println!("  non-core {}", cache.get(false, *r).1);
+    }
+    println!("real combine returned {} paths:", oc.real.len());
+    for o in &oc.real {
+        println!("  {}", o.to_json());
+    }
+    println!("R-combine derives {} paths:", reference.len());
+    for r in reference.values() {
+        println!("  {}  kinds={:?} mtu={} expiries={:?}", util::hopseq_str(&topo, &r.hops), r.kinds, r.mtu, r.expiries);
+    }
+    let _ = args;
+    if oc.violations.is_empty() {
+        println!("REPLAY: no violation reproduced");
+        std::process::exit(0)
+    }
+    for (c, wh) in &oc.violations {
+        println!("REPLAY VIOLATION [{c}] {wh}");
+    }
+    std::process::exit(1)
+}
+
 pub fn run(args: &vpc::Args) -> ! {
-    vpc::machinery_failure(&format!("property {} not implemented yet", args.prop))
+    vpc::quiet_panics();
+    if let Some(f) = &args.replay {
+        replay(args, f);
+    }
+    let run = vpc::Run::new(args);
+    let max_n = run.tier.pick(4, 5);
+    let max_mult = 2;
+    let mut total = Tally::default();
+    let mut per_n = vec![];
+    let mut topo_idx = 0usize;
+    for n in 1..=max_n {
+        let topos = reftopo_enum::enumerate(n, max_mult);
+        // complete variant set: n <= 3 every pair; above on a rotating subset of pairs
+        let full_every = match (n, run.tier) {
+            (0..=3, _) => 1,
+            (4, vpc::Tier::Quick) => 6,
+            (4, vpc::Tier::Thorough) => 1,
+            (_, _) => 12,
+        };
+        let base = topo_idx;
+        let tallies: Vec<Tally> = topos.par_iter().enumerate().map(|(i, t)| explore(&run, t, base + i, full_every)).collect();
+        topo_idx += topos.len();
+        let mut tn = Tally::default();
+        for t in tallies {
+            tn.merge(t);
+        }
+        per_n.push(json!({"n": n, "shapes": topos.len() / 2, "topologies(2 numberings)": topos.len(), "ordered_pairs": tn.pairs, "pairs_with_full_variant_set": tn.full_pairs, "combine_calls": tn.calls, "pairs_with_paths": tn.pairs_with_paths}));
+        total.merge(tn);
+    }
+    let curated_n;
+    {
+        let cur = reftopo_enum::curated();
+        curated_n = cur.len();
+        let full_every = run.tier.pick(5, 1);
+        let base = topo_idx;
+        let tallies: Vec<Tally> = cur.par_iter().enumerate().map(|(i, t)| explore(&run, t, base + i, full_every)).collect();
+        let mut tn = Tally::default();
+        for t in tallies {
+            tn.merge(t);
+        }
+        per_n.push(json!({"curated": cur.iter().map(|t| t.name.clone()).collect::<Vec<_>>(), "ordered_pairs": tn.pairs, "pairs_with_full_variant_set": tn.full_pairs, "combine_calls": tn.calls, "pairs_with_paths": tn.pairs_with_paths}));
+        total.merge(tn);
+    }
+    for (k, v) in &total.outcomes {
+        run.outcome_n(k, *v);
+    }
+    let d = vpc::Distinct::default();
+    d.extend(total.nontrivial.iter().copied());
+    let exhaustive_all_variants = run.tier == vpc::Tier::Thorough;
+    run.finish(
+        "exploration",
+        json!({
+            "evaluations": total.calls,
+            "reference_evaluations": total.ref_calls,
+            "distinct_nontrivial": d.len(),
+            "rule": "distinct (topology incl. interface numbering, ordered src/dst pair) for which R-combine derives at least one path; evaluations = calls of the real combine()",
+            "exhaustive": true,
+            "bound": format!("all SCION topologies up to isomorphism with n <= {max_n} ASes (core-link multiplicity <= {max_mult}, two interface numberings each) + {curated_n} curated larger shapes; every ordered (src,dst); lookup-plan sets; base + core-direction + all-later-copies variants on every pair, the complete order/duplication variant set on every pair for n <= 3{}", if exhaustive_all_variants { " and n = 4, every 12th pair for n = 5, every pair of the curated shapes" } else { ", every 6th pair for n = 4, every 5th pair of the curated shapes" }),
+            "per_n": per_n,
+            "largest_input_segments": total.max_segs,
+            "largest_result_paths": total.max_paths,
+        }),
+        &[
+            "R-topo/R-seg/R-combine are written from the SCION control-plane documentation and are the trusted side",
+            "segments are built field by field through the public AsEntry/HopEntry/PeerEntry/UnsignedPathSegment::new constructors; hop MAC values are irrelevant to C04",
+            "the lookup plan returns: up = all segments ending at a non-core src, down = all ending at a non-core dst, core = all core segments between the core sides",
+            "keep-latest-expiry among equal interface sequences is taken as part of 'each once' (documented behaviour of filter_duplicates / scionproto)",
+        ],
+    )
 }
